@@ -567,6 +567,7 @@ def _run_check(ctx, mod, replay):
     else:
         iouts = ["NOHARNESS"] * len(lines)
     mcanon = getattr(mod, "canon", lambda s: s)
+    spec_override = getattr(mod, "spec_override", None)
 
     def canon(s):
         # panic message wording is never compared (kept in Case.extra for the replay)
@@ -581,6 +582,8 @@ def _run_check(ctx, mod, replay):
             c.extra["panic"] = bytes.fromhex(i[6:]).decode("utf-8", "replace") if all(ch in "0123456789abcdef" for ch in i[6:]) else i[6:]
         c.impl = canon(i)
         c.model = canon(c.model)
+        if spec_override is not None:
+            c.spec = spec_override(c)
 
     # ---- judge
     known = [k for k in load_known() if k.get("property") == ctx.prop and k.get("status") == "known"]
